@@ -55,7 +55,7 @@ def kvs(s):
 
 def compare(line, robs, mobs):
     """None if the two observations agree, else a short reason."""
-    if robs == 'inexact':
+    if robs == 'inexact' or mobs == 'inexact':
         return None
     if robs == 'nomap' or mobs.startswith('bad-op:no-such-map'):
         if robs == 'nomap' and mobs.startswith('bad-op:no-such-map'):
@@ -107,7 +107,7 @@ def check_histories(histories, stats=None):
         for si, (ln, ro, mo) in enumerate(zip(h, robs, mobs)):
             if stats is not None:
                 stats.count(ln, ro, mo)
-            if ro == 'inexact':
+            if ro == 'inexact' or mo == 'inexact':
                 if stats is not None:
                     stats.discarded += 1
                 break
